@@ -19,14 +19,18 @@ grep -E "^test |test result" /tmp/confirm_demo1.log >> $R; echo "exit=$RC1" >> $
 echo "== suite WITH change (only the 4 baseline failures + the demo may fail)" >> $R
 cargo test --workspace --no-fail-fast --offline > /tmp/confirm_suite.log 2>&1
 grep -E "^test .*FAILED|test result: FAILED" /tmp/confirm_suite.log | sort >> $R
-FAILS=$(grep -E "^test .*FAILED" /tmp/confirm_suite.log | grep -v "seeded_demo\|^test demo\|test_error_debug\|test_error_display\|test_check::case_3\|test_check::case_4" | grep -vc "$(grep -E '^test ' /tmp/confirm_demo1.log | grep FAILED | awk '{print $2}' | head -1)XX")
 git apply -R $SRC/patch.diff
 echo "== demo WITHOUT change (must pass)" >> $R
 cargo test -p rustic_core --test seeded_demo --offline > /tmp/confirm_demo2.log 2>&1; RC2=$?
 grep -E "^test |test result" /tmp/confirm_demo2.log >> $R; echo "exit=$RC2" >> $R
 rm -f crates/core/tests/seeded_demo.rs; git clean -fdq crates
-# names of the demo tests (they also appear in the suite run and are allowed to fail there)
-DEMO_TESTS=$(grep -E "^test .* \.\.\. " /tmp/confirm_demo1.log | awk '{print $2}' | tr '\n' '|' | sed 's/|$//')
-OTHER=$(grep -E "^test .*FAILED" /tmp/confirm_suite.log | grep -v "test_error_debug\|test_error_display\|test_check::case_3\|test_check::case_4" | grep -Ev "^test (${DEMO_TESTS:-NONE}) " | wc -l)
+OTHER=$(python3 - <<'PY'
+import re
+base={"test_error_debug","test_error_display","integration::check::test_check::case_3","integration::check::test_check::case_4"}
+demo=set(re.findall(r"^test (\S+) \.\.\. ", open('/tmp/confirm_demo1.log').read(), re.M))
+failed=set(re.findall(r"^test (\S+) \.\.\. FAILED", open('/tmp/confirm_suite.log').read(), re.M))
+print(len(failed-base-demo))
+PY
+)
 echo "demo_with_change_exit=$RC1 demo_without_change_exit=$RC2 other_suite_failures=$OTHER" | tee -a $R
 if [ $RC1 -ne 0 ] && [ $RC2 -eq 0 ] && [ $OTHER -eq 0 ]; then echo "CONFIRMED $ID" | tee -a $R; exit 0; else echo "NOT-CONFIRMED $ID" | tee -a $R; exit 1; fi
